@@ -69,3 +69,113 @@ def first_exit(exits: Sequence[Tuple[Sequence[Term], Any]], atoms: Dict[Term, bo
         if guards_hold(guards, atoms, truthy):
             return outcome
     return None
+
+
+# ----------------------------------------------------------------------------- canonical leaves
+def canon_leaf(t: Term) -> Tuple[Term, bool]:
+    """Atomic condition -> (canonical leaf, polarity).  `a <= b` is `not (b < a)`, `!=` is
+    `not ==`, `not in` is `not in`, `is not` is `not is`."""
+    t = T.strip(t)
+    if t[0] == "not":
+        l, p = canon_leaf(t[1])
+        return l, not p
+    if t[0] == "cmp":
+        op, a, b = t[1], t[2], t[3]
+        if op == "<":
+            return ("cmp", "<", a, b), True
+        if op == "<=":
+            return ("cmp", "<", b, a), False
+        if op == "==":
+            return T.canon_cmp("==", a, b), True
+        if op == "!=":
+            return T.canon_cmp("==", a, b), False
+        if op == "in":
+            return t, True
+        if op == "notin":
+            return ("cmp", "in", a, b), False
+        if op == "is":
+            return t, True
+        if op == "isnot":
+            return ("cmp", "is", a, b), False
+    return t, True
+
+
+def leaves(t: Term, truthy=None) -> List[Term]:
+    """Canonical leaves of a condition (through and/or/not/ifexp)."""
+    out: List[Term] = []
+
+    def walk(x: Term) -> None:
+        x = T.strip(x)
+        if x[0] == "const":
+            return
+        if x[0] == "not":
+            walk(x[1])
+        elif x[0] in ("and", "or"):
+            for y in x[1]:
+                walk(y)
+        elif x[0] == "ifexp":
+            walk(x[1]); walk(x[2]); walk(x[3])
+        else:
+            if truthy is not None and truthy(x) is not None:
+                return
+            l, _ = canon_leaf(x)
+            if l not in out:
+                out.append(l)
+
+    walk(t)
+    return out
+
+
+def eval_leaves(t: Term, assign: Dict[Term, bool], truthy=None) -> bool:
+    t = T.strip(t)
+    k = t[0]
+    if k == "const":
+        return bool(t[1])
+    if k == "not":
+        return not eval_leaves(t[1], assign, truthy)
+    if k == "and":
+        return all(eval_leaves(x, assign, truthy) for x in t[1])
+    if k == "or":
+        return any(eval_leaves(x, assign, truthy) for x in t[1])
+    if k == "ifexp":
+        return eval_leaves(t[2], assign, truthy) if eval_leaves(t[1], assign, truthy) else eval_leaves(t[3], assign, truthy)
+    if truthy is not None:
+        v = truthy(t)
+        if v is not None:
+            return v
+    l, p = canon_leaf(t)
+    if l not in assign:
+        raise NotBoolean(T.show(t))
+    return assign[l] == p
+
+
+def guards_hold_leaves(guards: Sequence[Term], assign: Dict[Term, bool], truthy=None) -> bool:
+    return all(eval_leaves(g[1], assign, truthy) == g[2] for g in guards)
+
+
+def order_closure(ls: Sequence[Term]) -> Tuple[List[Term], Callable[[Dict[Term, bool]], bool]]:
+    """Add the missing members of {a<b, b<a, a==b} for every compared pair and return the
+    trichotomy constraint (exactly one of the three holds)."""
+    out = list(ls)
+    triples = []
+    seen = set()
+    for l in list(ls):
+        if l[0] == "cmp" and l[1] in ("<", "=="):
+            a, b = l[2], l[3]
+            key = frozenset([a, b])
+            if key in seen or a == b:
+                continue
+            seen.add(key)
+            tri = [("cmp", "<", a, b), ("cmp", "<", b, a), T.canon_cmp("==", a, b)]
+            # only numeric-looking pairs: skip == against string/None constants
+            if l[1] == "==" and not any(x in ls for x in tri[:2]):
+                continue
+            for x in tri:
+                if x not in out:
+                    out.append(x)
+            triples.append(tri)
+
+    def ok(a: Dict[Term, bool]) -> bool:
+        return all(sum(1 for x in tri if a[x]) == 1 for tri in triples)
+
+    return out, ok
